@@ -90,3 +90,12 @@ MUTANTS["C19"] = [
           "        new = self._copy_data()\n        try:\n            for line in range(self.lines):\n                for track in range(self.tracks):\n                    new[line][track] = fn(self, line, track)\n        finally:\n            if line == self.lines - 1 and track == self.tracks - 1:\n                self._install_data(new)")],
     ),
 ]
+
+
+MUTANTS["C19"].append(("revert fix 17f2810 (F6)", [("revert", "17f2810")]))
+
+MUTANTS["C01"] = [
+    ("revert fix 8b9bb2d (F1: name cut inside a character)", [("revert", "8b9bb2d")]),
+    ("revert fixes 6d5271c+c8b47ec (F3+F4: sampler record)", [("revert", "6d5271c"), ("revert", "c8b47ec")]),
+    ("revert fix 6d5271c only (F3: legacy replay of a loaded Sampler)", [("revert", "6d5271c")]),
+]
